@@ -689,6 +689,43 @@ pub fn gen_c09(rng: &mut Rng, thorough: bool) -> Vec<Tagged> {
             out.push((format!("{}-learn-earlystop", tag), Case::Net(spec2, NetCmd::Learn { data: data.clone(), val: Some((val2, rng.range(1, 2) as i32)), batch: 1, epochs: 6 })));
         }
     }
+    // degenerate dropout rates (1.0 and above: everything is dropped while training; 0.0: nothing is) on
+    // every layer kind, at the top level and inside a feedback block: outside training they change nothing
+    for (ri, &rate) in [1.0f32, 1.5, 0.0, 0.999_999_94].iter().enumerate() {
+        for kind in 0..4 {
+            let input = Sh::Sp(1, 2, 3);
+            let first = match kind {
+                0 => Simple::Conv { filters: 1, kernel: (1, 2), stride: (1, 1), padding: (0, 0), dilation: (1, 1), act: Act::Tanh, dropout: Some(rate) },
+                1 => Simple::Deconv { filters: 1, kernel: (1, 2), stride: (1, 1), padding: (0, 0), act: Act::Tanh, dropout: Some(rate) },
+                2 => Simple::Dense { out: 4, act: Act::Tanh, bias: true, dropout: Some(rate) },
+                _ => Simple::Deconv { filters: 1, kernel: (1, 1), stride: (1, 1), padding: (0, 0), act: Act::Linear, dropout: Some(rate) },
+            };
+            let mid = match out_shape(&first, input) { Some(m) => m, None => continue };
+            let mut spec = NetSpec::new(input.to_shape());
+            let mut ws = vec![];
+            if kind == 3 {
+                // the deconvolution with dropout sits inside a feedback block
+                ws.push(LW::Block(vec![rand_w(rng, &first, input, 2)]));
+                spec.layers.push(LayerSpec::Block { layers: vec![first], loops: 2, inskips: false, outskips: false, acc: Acc::Mean });
+            } else {
+                ws.push(LW::One(rand_w(rng, &first, if kind == 2 { Sh::Flat(input.numel()) } else { input }, 2)));
+                spec.layers.push(LayerSpec::One(first));
+            }
+            let d = Simple::Dense { out: 2, act: Act::Linear, bias: true, dropout: None };
+            ws.push(LW::One(rand_w(rng, &d, Sh::Flat(mid.numel()), 2)));
+            spec.layers.push(LayerSpec::One(d));
+            spec.weights = Some(ws);
+            spec.opt = Opt::SGD { lr: 0.05, decay: None };
+            spec.obj = Obj::MSE;
+            let data = rand_data(rng, 2, input, Sh::Flat(2), Obj::MSE);
+            let val = rand_data(rng, 2, input, Sh::Flat(2), Obj::MSE);
+            let tag = format!("dropout-rate{}-{}", ri, ["conv", "deconv", "dense", "block-deconv"][kind]);
+            out.push((format!("{}-predict", tag), Case::Net(spec.clone(), NetCmd::Predict(data[0].0.clone()))));
+            out.push((format!("{}-learn", tag), Case::Net(spec.clone(), NetCmd::Learn { data: data.clone(), val: Some((val.clone(), 100)), batch: 1, epochs: 2 })));
+            out.push((format!("{}-validate-outside", tag), Case::Net(spec.clone(), NetCmd::Validate { data: val.clone(), tol: 0.1, pre_training: false })));
+            out.push((format!("{}-validate-in-training", tag), Case::Net(spec, NetCmd::Validate { data: val, tol: 0.1, pre_training: true })));
+        }
+    }
     // networks WITHOUT a dense layer at the top level (fully convolutional): the flags must be
     // cleared after learn although no dense layer carries the "training" marker
     for _ in 0..(if thorough { 60 } else { 10 }) {
